@@ -82,7 +82,7 @@ func (p *StreamPool) VerifQueued() (maxPages, queuedPages int, oldestHead time.T
 		// counted by walking the queue, not taken from the c.pages counter the
 		// limit logic itself relies on
 		n := 0
-		for pg := c.first; pg != nil; pg = pg.next {
+		for pg := c.first; pg != nil && !c.closed; pg = pg.next {
 			n++
 		}
 		queuedPages += n
